@@ -911,7 +911,13 @@ def bi_hasattr(fv, node, st, spec):
 
 
 def bi_getattr(fv, node, st, spec):
-    fv.err(node, 'getattr not supported here')
+    """getattr(obj, 'name'[, default]): an unknown value (it may be the attribute or the default); no side effect"""
+    if spec or fv.binders or fv.bound_env:
+        fv.err(node, 'getattr not supported in specifications')
+    for a in node.args:
+        fv.ev(a, st, spec)
+    fv.E.assumptions.add('getattr(obj, name, default) has no side effect; its value is left unconstrained')
+    return fv.E.fresh('getattr', ANY)
 
 
 def bi_type(fv, node, st, spec):
